@@ -1,6 +1,11 @@
 """C04 -- A table behaves as an ordered map (DESIGN.md section 5, C04; as built: design.d/C04.md).
 
 S1  Coq: SortedMap spec lemmas, read_correct, wf_check_sound, mutator refinement (Props/C04.v)
+S2  shape correspondence: programs of the modelled writers run on the real crate (Table::verif_shape after
+    EVERY operation, uncommitted pages included) and on the EXTRACTED shape model (coq/Btree/Shape.v, whose
+    erasure is Mutator.v); the two trees must be equal node by node (keys, value lengths, separators, dirty
+    flags, allocated and used page lengths).  A difference alone is not a violation: directed search with
+    the S3 oracle around the differing programs decides (replayable violation / no-failing-input-found).
 S3  the property itself: every value returned by the real table API and the full contents after every
     transaction, under several storage configurations, must equal what the EXTRACTED SortedMap
     specification returns for the same operation log.  A difference is a replayable violation
@@ -141,6 +146,197 @@ def shrink(ctx, lines, budget=60, name="c04"):
     return cur
 
 
+# ------------------------------------------------------------------------------------------------ S2: shape correspondence
+
+MUTATING = ("I", "R", "M", "EO", "EM", "EI", "ER", "EE", "D", "PF", "PL", "T", "U", "X")
+
+
+def observed(lines):
+    """The program with the map observed after every mutating operation (len + full scan, alternating
+    direction): what the directed search feeds to the S3 oracle."""
+    out = []
+    flip = False
+    for l in lines:
+        t = l.split(" ")[0]
+        if t == "C":
+            out.append(" ".join(l.split(" ")[:4]))
+            continue
+        out.append(l)
+        if t in MUTATING:
+            flip = not flip
+            out.append("N")
+            out.append("Q u u " + ("d" if flip else "D"))
+    return out
+
+
+def shape_verbose(ctx, lines, sub):
+    """Re-run one shape program verbosely on both sides; returns (index, impl_line, model_line) of the first
+    differing output line, or None."""
+    wd = os.path.join(ctx.workdir, sub)
+    shutil.rmtree(wd, ignore_errors=True)
+    os.makedirs(wd)
+    with open(os.path.join(wd, "in.txt"), "w") as f:
+        f.write("\n".join(lines) + "\n")
+    exe, drv = vlib.cargo_bin("c04")[0], vlib.ocaml_driver("c04")[0]
+    env = dict(os.environ, VERIF_SEED=str(ctx.seed), VERIF_TIER=ctx.tier)
+    try:
+        subprocess.run([exe, "shapefile", "in.txt"], cwd=wd, env=env, stdout=subprocess.DEVNULL, stderr=subprocess.DEVNULL, timeout=300)
+        with open(os.path.join(wd, "shape_cases.txt")) as fi, open(os.path.join(wd, "shape_model.txt"), "w") as fo:
+            subprocess.run(["bash", "-c", 'ulimit -s unlimited 2>/dev/null; exec "$0" shape verbose', drv], stdin=fi, stdout=fo, stderr=subprocess.DEVNULL, cwd=wd, timeout=300)
+    except (subprocess.TimeoutExpired, OSError):
+        return None
+    a = open(os.path.join(wd, "shape_impl.txt"), errors="replace").read().split("\n")
+    b = open(os.path.join(wd, "shape_model.txt"), errors="replace").read().split("\n")
+    for i in range(max(len(a), len(b))):
+        x = a[i] if i < len(a) else "<missing>"
+        y = b[i] if i < len(b) else "<missing>"
+        if x != y:
+            return i, x, y
+    return None
+
+
+def op_of_output_line(lines, idx):
+    """The program line that produced output line `idx` of a shape run (C, then per transaction B + shape,
+    per operation result + shape, K/A)."""
+    o = 0
+    for l in lines:
+        t = l.split(" ")[0]
+        n = 1 if t in ("C", "K", "A") else (0 if t == "O" else 2)
+        if o <= idx < o + n:
+            return l
+        o += n
+    return "<end>"
+
+
+def shape_stage(ctx, cov):
+    """Returns (s2_ok, detail). Records violations found by the directed search."""
+    import time
+    t0 = time.time()
+    n = int(os.environ.get("VERIF_C04_SHAPE_N", "0")) or (70 if ctx.quick else 2500)
+    level = int(os.environ.get("VERIF_C04_SHAPE_LEVEL", "2"))
+    rc, out = ctx.harness("c04", ["shape", n, level], timeout=600 if ctx.quick else 6000)
+    if rc != 0:
+        # the crate took the process down while a shape program ran: hand that program to the S3 oracle
+        last = None
+        try:
+            ls = [l.split() for l in open(os.path.join(ctx.workdir, "shape_progress.txt")).read().split("\n") if l.strip()]
+            if ls and ls[-1][0] == "RUN":
+                last = int(ls[-1][1])
+        except OSError:
+            pass
+        if last is not None:
+            lines = case_blocks(os.path.join(ctx.workdir, "shape_cases.txt")).get(last)
+            d = run_file(ctx, observed(lines), "shape-abort") if lines else []
+            if d:
+                ctx.violation("c04-shape-abort", "the crate aborted / did not return while running shape program %d; under the S3 oracle the same program gives: "
+                              "configuration %s, output line %d: redb=%r spec=%r" % (last, d[0][0], d[0][1], d[0][2][:200], d[0][3][:200]),
+                              {"program": observed(lines), "how_to_replay": "./check C04 --replay <this file>"})
+                return True, None
+        return False, "shape harness failed rc=%s: %s" % (rc, (out or "")[-1200:])
+    stats = {}
+    for l in (out or "").split("\n"):
+        if "=" in l:
+            k, v = l.split("=", 1)
+            stats[k] = v
+    t1 = time.time()
+    rc2, err = ctx.driver("c04", "shape_cases.txt", "shape_model.txt", args=["shape"], timeout=3000)
+    t2 = time.time()
+    if rc2 != 0:
+        return False, "shape model driver failed rc=%s: %s" % (rc2, err)
+    impl = blocks(os.path.join(ctx.workdir, "shape_impl.txt"))
+    model = blocks(os.path.join(ctx.workdir, "shape_model.txt"))
+    markers = {}
+    try:
+        for l in open(os.path.join(ctx.workdir, "shape_markers.txt")):
+            k, v = l.strip().rsplit("=", 1)
+            markers[k] = int(v)
+    except OSError:
+        pass
+    compared = 0
+    bad = []
+    for pid, ls in impl.items():
+        ml = model.get(pid, [])
+        compared += sum(1 for x in ls if x.startswith("S "))
+        if ls != ml:
+            for i in range(max(len(ls), len(ml))):
+                a = ls[i] if i < len(ls) else "<missing>"
+                b = ml[i] if i < len(ml) else "<missing>"
+                if a != b:
+                    bad.append((pid, i, a, b))
+                    break
+    m = re.search(r"shape_programs=(\d+) shape_ops=(\d+)", out or "")
+    cov["shape_correspondence"] = {
+        "programs": int(m.group(1)) if m else 0, "operations": int(m.group(2)) if m else 0,
+        "trees_compared_node_by_node": compared, "differing_programs": len(bad),
+        "path_markers_hit (counted by the extracted model on the programs whose trees agree with redb's)": markers,
+        "distribution": stats, "op_level": level,
+        "seconds": {"harness": round(t1 - t0, 1), "model": round(t2 - t1, 1)},
+        "model_self_checks": "erasure(Shape.v result) == Mutator.v result and tree_checkb after every operation (marker lines ERASE!/INV! would differ from redb's output)",
+    }
+    if not bad:
+        return True, None
+    # ---- a correspondence break.  Decide per differing program whether redb's behaviour violates the property.
+    cases = case_blocks(os.path.join(ctx.workdir, "shape_cases.txt"))
+    bad.sort(key=lambda x: len(cases[x[0]]))
+    details = []
+    searched = 0
+    for (pid, i, a, b) in bad[:6]:
+        lines = cases[pid]
+        v = shape_verbose(ctx, lines, "shape-verbose")
+        opl = op_of_output_line(lines, i)
+        details.append({"program": pid, "header": lines[0], "output_line": i, "operation": opl[:200],
+                        "redb": (v[1] if v else a)[:700], "model": (v[2] if v else b)[:700]})
+        searched += 1
+        d = [x for x in run_file(ctx, observed(lines), "shape-dsearch") if not x[2].startswith("NO RETURN")]
+        if d:
+            cfg, j, x, y = d[0]
+            small = shrink(ctx, observed(lines), budget=40)
+            d2 = run_file(ctx, small, "final")
+            if d2:
+                cfg, j, x, y = d2[0]
+            else:
+                small = observed(lines)
+            ctx.violation("c04-%s" % (x.split(" ")[0] if x != "<missing>" else y.split(" ")[0]),
+                          "found by the directed search after a shape difference (program %d, operation %r): table output differs from the sorted-map "
+                          "specification under configuration %s at output line %d: redb=%r spec=%r" % (pid, opl[:80], cfg, j, x[:300], y[:300]),
+                          {"program": small, "config": cfg, "line": j, "impl": x, "spec": y, "shape_difference": details[-1],
+                           "how_to_replay": "./check C04 --replay <this file>"})
+    if not ctx.violations:
+        # bigger budget around the difference: fresh shape programs (other seeds), observed after every operation, through the S3 oracle
+        rounds = 3 if ctx.quick else 12
+        exe = vlib.cargo_bin("c04")[0]
+        for rnd in range(rounds):
+            wd = os.path.join(ctx.workdir, "shape-extra")
+            shutil.rmtree(wd, ignore_errors=True)
+            os.makedirs(wd)
+            env = dict(os.environ, VERIF_SEED=str(ctx.seed * 1000 + 17 + rnd), VERIF_TIER=ctx.tier)
+            try:
+                subprocess.run([exe, "shape", "24", str(level)], cwd=wd, env=env, stdout=subprocess.DEVNULL, stderr=subprocess.DEVNULL, timeout=300)
+            except subprocess.TimeoutExpired:
+                continue
+            extra = case_blocks(os.path.join(wd, "shape_cases.txt"))
+            allp = []
+            for pid in sorted(extra):
+                allp.extend(observed(extra[pid]))
+            searched += len(extra)
+            d = [x for x in run_file(ctx, allp, "shape-dsearch") if not x[2].startswith("NO RETURN")]
+            if d:
+                cfg, j, x, y = d[0]
+                # find the program
+                ctx.violation("c04-%s" % (x.split(" ")[0] if x != "<missing>" else y.split(" ")[0]),
+                              "found by the directed search after a shape difference: table output differs from the sorted-map specification under "
+                              "configuration %s: redb=%r spec=%r" % (cfg, x[:300], y[:300]),
+                              {"program": allp, "config": cfg, "line": j, "impl": x, "spec": y, "shape_difference": details[0],
+                               "how_to_replay": "./check C04 --replay <this file>"})
+                break
+    cov["shape_correspondence"]["directed_search_programs"] = searched
+    if ctx.violations:
+        return True, None
+    return False, {"what": "the real tree differs from the shape model (coq/Btree/Shape.v) on %d of %d programs; the S3 oracle found no behavioural difference on them "
+                           "(observed after every operation, every configuration) nor on %d further programs" % (len(bad), len(impl), searched),
+                   "first_differences": details}
+
+
 def run(ctx):
     import time
     t0 = time.time()
@@ -244,6 +440,9 @@ def run(ctx):
                            "all_differing_configs": sorted(set(x[0] for x in d2)) if d2 else [cfg],
                            "how_to_replay": "./check C04 --replay <this file>   (runs the program under every configuration and the extracted spec)",
                            "format": "see ocaml/c04_driver.ml"})
+    if not ctx.violations:
+        s2_ok, detail = shape_stage(ctx, cov)
+    cov["stage_seconds"]["S2 shape correspondence"] = round(time.time() - t3, 1)
     cov["evaluations"] = runs
     cov["distinct_nontrivial"] = dn
     cov["rule"] = ("random table programs (op kinds/shapes below) over generated key pools, each run under page size 512 plus two more "
